@@ -16,12 +16,12 @@ T3(x) == {<<t[1], t[2], t[3]>> : t \in S(x)}
 P2(x) == {<<t[1], t[2]>> : t \in S(x)}
 Has(r, f) == f \in DOMAIN r
 Count(s, x) == Cardinality({i \in 1..Len(s) : s[i] = x})
-St0 == [A |-> {}, B |-> {}]
+St0 == [A |-> {}, B |-> {}, H |-> {}]
 Ops == {"new", "add", "batch", "remove", "set", "iadd", "isub", "binop", "value", "proj", "pairs", "choices", "cbd", "nodes", "connected", "iso", "contains", "len"}
 P3(p) == <<p[1], p[2], p[3]>>
 
 NewSt(M, e) ==
-  CASE e.op = "new"    -> [A |-> T3(e.A0), B |-> T3(e.B0)]
+  CASE e.op = "new"    -> [A |-> T3(e.A0), B |-> T3(e.B0), H |-> T3(e.B0)]      \* H: a further graph in B's store that starts out with B's triples (some configurations)
     [] e.op = "add"    -> [M EXCEPT ![e.g] = @ \cup {P3(e.t)}]
     [] e.op = "batch"  -> [M EXCEPT ![e.g] = @ \cup T3(e.ts)]
     [] e.op = "remove" -> [M EXCEPT ![e.g] = RemoveOp(@, P3(e.pat))]
@@ -73,6 +73,7 @@ Judge(M, e) ==
             (IF e.op = "new" THEN "StateAgrees:new"
              ELSE IF e.op \in {"add", "batch", "remove", "set", "iadd", "isub"} /\ T3(e[e.g]) # M2[e.g] THEN "StateAgrees:" \o e.op
              ELSE "OperandsUntouched:" \o e.op)
+       ELSE IF Has(e, "H") /\ T3(e.H) # M2.H THEN "OtherGraphUntouched:" \o e.op
        ELSE IF e.lenA # Cardinality(M2.A) \/ e.lenB # Cardinality(M2.B) THEN "LenAgrees:" \o e.op
        ELSE "ok"
 Init == k = 1 /\ l = 1 /\ st = St0 /\ verdict = "ok"
